@@ -1,4 +1,7 @@
+#![recursion_limit = "512"]
 mod c12;
+mod c13;
+mod c13run;
 mod corpus;
 mod exec;
 mod findings;
@@ -65,6 +68,7 @@ fn main() {
             println!("VERIF_SEED={seed} tier={tier} property={prop}");
             let code = match prop.as_str() {
                 "C12" => c12::run_check(&tier, seed, &verif).exit,
+                "C13" => c13run::run_check(&tier, seed, &verif),
                 _ => {
                     eprintln!("unknown property {prop}");
                     2
@@ -178,6 +182,23 @@ fn main() {
                         Some(d) => {
                             println!("reproduced: {d}");
                             println!("VIOLATION property=C12 replay={path}");
+                            std::process::exit(1);
+                        }
+                        None => {
+                            println!("not reproduced");
+                            std::process::exit(0);
+                        }
+                    }
+                }
+                Some("C13") => {
+                    let sc: c13::C13Scenario = serde_json::from_value(v).expect("C13 scenario");
+                    let scratch = pool::scratch_base("replay");
+                    let r = c13::replay(&sc, &scratch);
+                    let _ = std::fs::remove_dir_all(&scratch);
+                    match r {
+                        Some(d) => {
+                            println!("reproduced: {d}");
+                            println!("VIOLATION property=C13 replay={path}");
                             std::process::exit(1);
                         }
                         None => {
